@@ -1,24 +1,43 @@
 #!/usr/bin/env python3
-"""Run checks against a seeded mutation: apply to /repo, run bin/check <PROP> <tier>, undo. Writes seeded/<id>/result_<tier>.json
-usage: seed_run.py <seed_id> [tier] [PROP override]"""
-import json, os, subprocess, sys, time
-sid = sys.argv[1]; tier = sys.argv[2] if len(sys.argv) > 2 else "quick"
+"""Run checks against a seeded mutation. Default: scratch worktree of /repo HEAD with the patch applied, checks pointed at it through
+VERIF_REPO (does not touch /repo, so several seeds can run side by side); --inplace: apply to /repo, run, undo (the brief's procedure).
+Writes seeded/<id>/result_<PROP>_<tier>.json
+usage: seed_run.py <seed_id> [tier] [PROP override] [--inplace] [-v] [--only regex]"""
+import json, os, subprocess, sys, tempfile, time
+args = [a for a in sys.argv[1:] if not a.startswith("-")]
+only = None
+if "--only" in sys.argv:
+    only = sys.argv[sys.argv.index("--only") + 1]
+    args.remove(only)
+sid = args[0]; tier = args[1] if len(args) > 1 else "quick"
 d = "/verif/seeded/%s" % sid
 meta = json.load(open(d + "/meta.json"))
-prop = sys.argv[3] if len(sys.argv) > 3 else meta["property"]
-assert subprocess.run("git -C /repo status --porcelain", shell=True, capture_output=True, text=True).stdout.strip() == "", "repo dirty"
-assert subprocess.run("git -C /repo apply %s/patch.diff" % d, shell=True).returncode == 0
+prop = args[2] if len(args) > 2 else meta["property"]
+inplace = "--inplace" in sys.argv
+extra = (" --only '%s'" % only) if only else ""
 t0 = time.time()
-try:
-    r = subprocess.run("cd /verif && ./bin/check %s %s --no-evidence" % (prop, tier), shell=True, capture_output=True, text=True)
-finally:
-    subprocess.run("git -C /repo checkout -- .", shell=True)
+if inplace:
+    assert subprocess.run("git -C /repo status --porcelain", shell=True, capture_output=True, text=True).stdout.strip() == "", "repo dirty"
+    assert subprocess.run("git -C /repo apply %s/patch.diff" % d, shell=True).returncode == 0
+    try:
+        r = subprocess.run("cd /verif && ./bin/check %s %s --no-evidence%s" % (prop, tier, extra), shell=True, capture_output=True, text=True)
+    finally:
+        subprocess.run("git -C /repo checkout -- .", shell=True)
+else:
+    wt = tempfile.mkdtemp(prefix="seedrun_%s_" % sid, dir="/tmp"); os.rmdir(wt)
+    assert subprocess.run("git -C /repo worktree add -q %s HEAD" % wt, shell=True).returncode == 0
+    try:
+        assert subprocess.run("git -C %s apply %s/patch.diff" % (wt, d), shell=True).returncode == 0, "patch does not apply"
+        r = subprocess.run("cd /verif && VERIF_REPO=%s ./bin/check %s %s --no-evidence%s" % (wt, prop, tier, extra), shell=True, capture_output=True, text=True)
+    finally:
+        subprocess.run("git -C /repo worktree remove --force %s" % wt, shell=True)
 viol = [l for l in r.stdout.splitlines() if l.startswith("VIOLATION")]
 summ = [l for l in r.stdout.splitlines() if l.startswith(prop + " " + tier)]
 det = [l for l in r.stdout.splitlines() if l.strip().startswith("violated obligation")][:4]
 res = dict(seed=sid, property=prop, tier=tier, rc=r.returncode, detected=bool(viol) and r.returncode == 1, violations=len(viol),
-           summary=summ, first=det, wall_s=round(time.time() - t0, 1))
-json.dump(res, open("%s/result_%s_%s.json" % (d, prop, tier), "w"), indent=1)
-print("%s %s %s: %s rc=%d wall=%.0fs %s" % (sid, prop, tier, "DETECTED" if res["detected"] else "MISSED", r.returncode, res["wall_s"], det[:1]))
+           summary=summ, first=det, wall_s=round(time.time() - t0, 1), mode="inplace" if inplace else "worktree")
+if not only:
+    json.dump(res, open("%s/result_%s_%s.json" % (d, prop, tier), "w"), indent=1)
+print("%s %s %s: %s rc=%d wall=%.0fs %s" % (sid, prop, tier, "DETECTED" if res["detected"] else "MISSED", r.returncode, res["wall_s"], [x[:300] for x in det[:1]]))
 if r.returncode not in (0, 1) or "-v" in sys.argv:
     print(r.stdout[-2500:]); print(r.stderr[-1500:])
